@@ -47,6 +47,9 @@ func (w *Writer) IsTerminal() bool {
 
 // GetTermSize returns WxH of underlying terminal.
 func (w *Writer) GetTermSize() (width, height int, err error) {
+	if tw, th, terr, ok := verifTermSize(w.fd); ok {
+		return tw, th, terr
+	}
 	return w.termSize(w.fd)
 }
 
